@@ -234,6 +234,9 @@ func Run(c *gen.Ctx) error {
 					cases = append(cases, xeng.Case{ID: len(cases), Query: q, Variables: vars, OperationName: "Q", Oracle: xeng.NewOracle(), SchemaSDL: s.sdl, Introspection: enabled})
 					pend = append(pend, pending{"shape", enabled, roots, q, vars})
 				}
+				// the standard query once more, after everything else this schema value has answered: the same answer
+				cases = append(cases, xeng.Case{ID: len(cases), Query: StandardQuery, OperationName: "IntrospectionQuery", Oracle: xeng.NewOracle(), SchemaSDL: s.sdl, Introspection: true})
+				pend = append(pend, pending{kind: "std", enabled: true, query: StandardQuery})
 				results, err := xeng.RunAll(p.Built.Bin, cases)
 				if err != nil {
 					return err
